@@ -11,6 +11,22 @@ TLAJAR = "/opt/veriftools/tla/tla2tools.jar:/opt/veriftools/tla/CommunityModules
 NCPU = os.cpu_count() or 8
 
 
+CLASSES = os.path.join(WORK, "classes")
+
+
+def ensure_overrides():
+    """Compile spec/java/*.java (TLC module overrides: Big.tla's operators on java.math.BigInteger)."""
+    src = os.path.join(SPEC, "java", "Big.java")
+    cls = os.path.join(CLASSES, "Big.class")
+    if os.path.exists(cls) and os.path.getmtime(cls) >= os.path.getmtime(src):
+        return
+    os.makedirs(CLASSES, exist_ok=True)
+    r = subprocess.run(["javac", "-cp", TLAJAR.split(":")[0], "-d", CLASSES, src], stdout=subprocess.PIPE,
+                       stderr=subprocess.STDOUT, text=True)
+    if r.returncode != 0:
+        raise ToolError("javac Big.java: " + r.stdout[-2000:])
+
+
 class ToolError(Exception):
     pass
 
@@ -98,14 +114,16 @@ def _unquote(tla_string):
 
 def tlc(module, cfg, workers=None, simulate=None, depth=None, seed=None, env=None, timeout=900,
         coverage=False, xmx="4g", xss="64m", deque=False, tags=("ROW", "EDGE", "REPLAY", "FAIL", "INFO"),
-        keep_raw=False):
+        keep_raw=False, overrides=True):
     """Run TLC on spec/<module>.tla with spec/<cfg>. Returns TLCResult."""
     res = TLCResult()
     meta = workdir("tlc/%s-%d-%d" % (cfg.replace(".cfg", ""), os.getpid(), next(_counter)))
     jopts = ["-XX:+UseSerialGC", "-Xmx" + xmx, "-Xss" + xss]   # measured: ParallelGC burns 20x more sys time
     if deque:
         jopts.append("-Dtlc2.tool.queue.IStateQueue=StateDeque")
-    cmd = ["java"] + jopts + ["-cp", TLAJAR, "tlc2.TLC", "-workers", str(workers or NCPU), "-metadir", meta,
+    if overrides:
+        ensure_overrides()
+    cmd = ["java"] + jopts + ["-cp", TLAJAR + (":" + CLASSES if overrides else ""), "tlc2.TLC", "-workers", str(workers or NCPU), "-metadir", meta,
                               "-cleanup", "-noGenerateSpecTE", "-config", cfg]
     if simulate:
         cmd += ["-simulate", "num=%d" % simulate]
